@@ -1,7 +1,8 @@
 #!/bin/bash
 # usage: tools/run_seeded.sh <seeded-id> [check ids...]   (default: the property named in meta.json)
 # Applies /verif/seeded/<id>/patch.diff to /repo, runs the checks' quick tier, prints the verdict lines,
-# and ALWAYS restores /repo (git checkout -- .). Evidence/ is restored too, so seeded runs never become evidence.
+# and ALWAYS restores /repo (git checkout -- .). Evidence/ is put back as it was before the run (also when it
+# was not committed yet), so seeded runs never become evidence.
 set -u
 id="$1"; shift
 dir="/verif/seeded/$id"
@@ -11,7 +12,8 @@ checks="$*"
 cd /repo || exit 2
 git diff --quiet || { echo "/repo has uncommitted changes; refusing"; exit 2; }
 git apply "$dir/patch.diff" || { echo "patch does not apply"; exit 2; }
-trap 'git -C /repo checkout -- . ; git -C /verif checkout -- evidence 2>/dev/null' EXIT
+bak=$(mktemp -d /tmp/verif-evidence.XXXXXX); cp -a /verif/evidence/. "$bak"/
+trap 'git -C /repo checkout -- . ; rm -rf /verif/evidence; mkdir -p /verif/evidence; cp -a "$bak"/. /verif/evidence/; rm -rf "$bak"' EXIT
 rc_all=0
 for c in $checks; do
   echo "=== $id -> $c quick"
